@@ -182,3 +182,14 @@ Proof.
 Qed.
 Theorem stops_table_is j : stops_table j = header_stops :: stop_rows j.
 Proof. reflexivity. Qed.
+
+(* composed with C15: EVERY journal BuildJournal returns, after any history and for any window, exports to stop-time rows that
+   join back to its trips *)
+From Coq Require Import Sorted.
+From GV Require Import Base.StrOrd Proofs.JournalProofs Proofs.HistoryProofs.
+Lemma sorted_slt_nodup (us : list string) : StronglySorted slt us -> NoDup us.
+Proof. induction 1 as [|u us Hs IH Hall]; constructor; [|exact IH]. intros Hin.
+  rewrite Forall_forall in Hall. specialize (Hall _ Hin). unfold slt in Hall. rewrite sltb_irrefl in Hall. discriminate. Qed.
+Theorem journal_export_join feeds a b t : In t (build_journal feeds a b) ->
+  filter (key_is (jt_uid t)) (stop_rows (build_journal feeds a b)) = map (stop_cells (jt_uid t)) (jt_stops t).
+Proof. apply stop_rows_join. apply sorted_slt_nodup. apply journal_sorted, history_ok. Qed.
